@@ -38,9 +38,13 @@ VARIABLES l,      \* next line of the trace
           heap,   \* ledger sub-machine: live blocks [id, inst, bytes]
           objs,   \* lifetime sub-machine: live instrumented objects [blk, off, sz]
           ob,     \* previous observation of every vector (for the stability judgements)
+          ex,     \* per vector: its block was requested for exactly its current capacity (Construct, growing
+                  \* Reserve, and what inherits such a block); after an assignment a vector may legitimately keep
+                  \* a larger block it owned before (C05 footprint clause), so the exact-footprint clause is
+                  \* only judged while ex holds
           skip    \* rest of the current history is not judged (after its first divergence)
 
-tvars == <<vec, el, act, l, heap, objs, ob, skip>>
+tvars == <<vec, el, act, l, heap, objs, ob, ex, skip>>
 
 NoObs == [st |-> "none"]
 MA == LO!MaxAl(P)
@@ -115,7 +119,7 @@ ValuesOK(r, E) == \A i \in 1..Len(E) : \A k \in Idx : E[i].f[k].v = r.elems[i].f
 
 Vss(r) == [i \in 1..Len(r.elems) |-> ElemVs(r.elems[i])]
 
-JudgeLive(r, o) ==
+JudgeLive(r, o, exact) ==
   LET E == Primary(o)
       n == Len(r.elems)
       shape == ShapeOK(r, E)
@@ -132,7 +136,7 @@ JudgeLive(r, o) ==
   \* --- data range (C02, C18)
   \cup Bad(o.dbnull = o.denull, "DATA_RANGE")
   \cup (IF o.dbnull = 1
-        THEN Bad(n = 0 /\ o.mc = 0, "NULL_DATA_BUT_ELEMENTS")
+        THEN Bad(n = 0, "NULL_DATA_BUT_ELEMENTS")
         ELSE Bad(inblk, "DATA_NOT_IN_LIVE_BLOCK")
              \cup (IF inblk
                    THEN Bad(0 <= o.db /\ o.db <= o.de /\ o.de <= o.bsz, "DATA_RANGE")
@@ -149,7 +153,8 @@ JudgeLive(r, o) ==
              \cup Bad(LO!ElemsAligned(P, E, o.res), "ALIGN")
              \cup Bad(LO!ElemsTight(P, r.fx, E, Vss(r), o.db), "TIGHT")
              \cup Bad(n > 0 => o.db = E[1].rb, "DATA_BEGIN")
-             \cup Bad((~HasVarying /\ n = r.cap /\ n > 0) => LO!AlignUp(E[n].re - o.db, MA) = o.mc, "FULL_FOOTPRINT")
+             \cup Bad((exact /\ ~HasVarying /\ n = r.cap /\ n > 0) => LO!AlignUp(E[n].re - o.db, MA) = o.mc,
+                       "FULL_FOOTPRINT")
         ELSE {})
 
 JudgeMoved(r, o) == Bad(o.st = "moved", "STATE") \cup Bad(o.al = r.al, "GET_ALLOCATOR")
@@ -157,11 +162,11 @@ JudgeMoved(r, o) == Bad(o.st = "moved", "STATE") \cup Bad(o.al = r.al, "GET_ALLO
 ObsOf(e, v) == LET s == {q \in 1..Len(e.obs) : e.obs[q].v = v} IN
                IF s = {} THEN NoObs ELSE e.obs[CHOOSE q \in s : TRUE]
 
-JudgeVec(r, o) ==
+JudgeVec(r, o, exact) ==
   IF r.st = "absent" THEN Bad(o = NoObs, "OBS_OF_ABSENT")
   ELSE IF o = NoObs THEN {"OBS_MISSING"}
   ELSE IF r.st = "moved" THEN JudgeMoved(r, o)
-  ELSE IF o.st # "live" THEN {"STATE"} ELSE JudgeLive(r, o)
+  ELSE IF o.st # "live" THEN {"STATE"} ELSE JudgeLive(r, o, exact)
 
 (* C16: address stability.  keep = number of leading elements that must not move *)
 SameAddrs(E1, E2, keep) ==
@@ -204,6 +209,7 @@ JudgeTransfer(e, obv) ==
 JudgeFootprint(e, obv) ==
   LET o == ObsOf(e, e.v) IN
   IF o = NoObs \/ o.st # "live" THEN {}
+  ELSE IF obv[e.v] # NoObs /\ obv[e.v].st = "moved" THEN {}    \* a moved-from vector may still own a block of unknown size
   ELSE LET before == IF obv[e.v] # NoObs /\ obv[e.v].st = "live" THEN obv[e.v].mc ELSE 0
            src == IF e.n \in VecOps2 /\ obv[e.a[1]] # NoObs /\ obv[e.a[1]].st = "live" THEN obv[e.a[1]].mc ELSE 0
            fresh == IF "fresh" \in DOMAIN e.par THEN e.par.fresh ELSE 0
@@ -227,24 +233,39 @@ ResetState ==
   /\ el' = [x \in Elems |-> Absent]
   /\ heap' = {} /\ objs' = {} /\ skip' = FALSE
   /\ ob' = [v \in Vecs |-> NoObs]
+  /\ ex' = [v \in Vecs |-> FALSE]
 
-Hold == UNCHANGED <<vec, el, heap, objs, ob, skip>>
+Hold == UNCHANGED <<vec, el, heap, objs, ob, ex, skip>>
+
+ExactAfter(e, R) ==
+  [v \in Vecs |->
+     IF v = e.v THEN
+       CASE e.n = "Construct" -> TRUE
+         [] e.n = "Reserve" -> IF e.a[1] > vec[v].cap THEN TRUE ELSE ex[v]
+         [] e.n \in {"CopyConstruct", "MoveConstruct"} -> ex[e.a[1]]
+         [] e.n \in {"CopyAssign", "MoveAssign"} -> IF e.a[1] = v THEN ex[v] ELSE FALSE
+         [] e.n = "Swap" -> ex[e.a[1]]
+         [] e.n \in {"Destroy", "DefaultConstruct"} -> FALSE
+         [] OTHER -> ex[v]
+     ELSE IF e.n = "Swap" /\ e.a[1] = v THEN ex[e.v]
+     ELSE ex[v]]
 
 StepOp(e) ==
   IF ~PreOf(S0, e.n, e.v, e.a)
-  THEN Report(e, {"DRIVER_PRECONDITION"}) /\ skip' = TRUE /\ UNCHANGED <<vec, el, heap, objs, ob>>
+  THEN Report(e, {"DRIVER_PRECONDITION"}) /\ skip' = TRUE /\ UNCHANGED <<vec, el, heap, objs, ob, ex>>
   ELSE
     LET par == e.par
         R == EffOf(S0, e.n, e.v, e.a, par)
         lg == LedgerFold(heap, {}, e.sub, 1)
         lf == LifeFold(objs, {}, e.sub, 1)
+        exa == ExactAfter(e, R)
         kinds ==
           Bad(ParOK(S0, e.n, e.v, e.a, par), "LOGGED_PARAMETER")
           \cup Bad(e.thrown = 0, "UNEXPECTED_THROW")
           \cup Bad(e.canary = 0, "CANARY")
           \cup Bad(e.ret = RetIdx(e.n, e.a), "RETURNED_ITERATOR")
           \cup lg.bad \cup lf.bad
-          \cup UNION {JudgeVec(R.vec[v], ObsOf(e, v)) : v \in Vecs}
+          \cup UNION {JudgeVec(R.vec[v], ObsOf(e, v), exa[v]) : v \in Vecs}
           \cup (IF e.v \in Vecs /\ vec[e.v].st = "live"
                 THEN JudgeStability(e, vec[e.v], ob[e.v], ObsOf(e, e.v)) ELSE {})
           \cup JudgeTransfer(e, ob)
@@ -252,15 +273,20 @@ StepOp(e) ==
           \* vectors that are not operands are completely unchanged (C09 independence): same observation
           \cup UNION {Bad(ObsOf(e, v) = ob[v], "BYSTANDER_CHANGED")
                       : v \in {w \in Vecs : w # e.v /\ ~(e.n \in VecOps2 /\ e.a[1] = w)}}
-          \* live instrumented objects = exactly the slots of the held values
-          \cup (IF \A v \in Vecs : R.vec[v].st # "moved"
-                THEN Bad(lf.objs = UNION {LET o == ObsOf(e, v) IN
-                                          IF o # NoObs /\ o.st = "live" /\ ShapeOK(R.vec[v], Primary(o))
-                                          THEN SlotsOf(o, Primary(o)) ELSE {} : v \in Vecs}, "LIVE_OBJECTS")
-                ELSE {})
+          \* live instrumented objects = exactly the slots of the held values; while a moved-from container
+          \* exists it may still hold moved-from objects (element-wise move between unequal allocators), so
+          \* only "every held value is a live object" is demanded then - the end of the history still requires
+          \* every object to be destroyed exactly once
+          \cup (LET want == UNION {LET o == ObsOf(e, v) IN
+                                  IF o # NoObs /\ o.st = "live" /\ ShapeOK(R.vec[v], Primary(o))
+                                  THEN SlotsOf(o, Primary(o)) ELSE {} : v \in Vecs}
+                IN IF \A v \in Vecs : R.vec[v].st # "moved"
+                   THEN Bad(lf.objs = want, "LIVE_OBJECTS")
+                   ELSE Bad(want \subseteq lf.objs, "LIVE_OBJECTS"))
     IN /\ vec' = R.vec /\ el' = R.el
        /\ heap' = lg.heap /\ objs' = lf.objs
        /\ ob' = [v \in Vecs |-> ObsOf(e, v)]
+       /\ ex' = exa
        /\ (IF kinds = {} THEN TRUE
            ELSE Report([h |-> e.h, s |-> e.s, n |-> e.n,
                         sz0 |-> IF e.v \in Vecs THEN SizeOrNeg(vec[e.v]) ELSE -1,
@@ -275,13 +301,13 @@ StepEnd(e) ==
                \cup Bad(lf.objs = {} /\ e.objs = <<>>, "OBJECTS_NEVER_DESTROYED")
   IN /\ (IF kinds = {} THEN TRUE ELSE Report([h |-> e.h, s |-> 0, n |-> "end"], kinds))
      /\ skip' = TRUE
-     /\ UNCHANGED <<vec, el, heap, objs, ob>>
+     /\ UNCHANGED <<vec, el, heap, objs, ob, ex>>
 
 TraceInit ==
   /\ l = 1 /\ skip = TRUE
   /\ vec = [v \in Vecs |-> Absent] /\ el = [x \in Elems |-> Absent]
   /\ act = [n |-> "Init", v |-> 0, a |-> <<>>]
-  /\ heap = {} /\ objs = {} /\ ob = [v \in Vecs |-> NoObs]
+  /\ heap = {} /\ objs = {} /\ ob = [v \in Vecs |-> NoObs] /\ ex = [v \in Vecs |-> FALSE]
 
 TraceNext ==
   /\ l <= Len(TraceLog)
@@ -294,8 +320,8 @@ TraceNext ==
                                            sz0 |-> IF e.v \in Vecs THEN SizeOrNeg(vec[e.v]) ELSE -1, sz1 |-> -1],
                                           {"CRASH:" \o e.kind})
                                 /\ skip' = TRUE
-                                /\ UNCHANGED <<vec, el, heap, objs, ob>>
-       [] e.e = "skip"  -> skip' = TRUE /\ UNCHANGED <<vec, el, heap, objs, ob>>
+                                /\ UNCHANGED <<vec, el, heap, objs, ob, ex>>
+       [] e.e = "skip"  -> skip' = TRUE /\ UNCHANGED <<vec, el, heap, objs, ob, ex>>
        [] e.e = "op"    -> IF skip THEN Hold ELSE StepOp(e)
        [] e.e = "end"   -> IF skip THEN Hold ELSE StepEnd(e)
        [] OTHER         -> Hold
